@@ -9,6 +9,7 @@ import (
 	"time"
 
 	"kvassverif/core"
+	"kvassverif/sched"
 	"kvassverif/cyc"
 	"kvassverif/sidecarsim"
 	"kvassverif/simnet"
@@ -70,7 +71,7 @@ func runBubble(tp *core.Tape, e *core.Env, sc *WScenario, which cyc.Which, res *
 		e.Undecided("%v", err)
 		return
 	}
-	time.Sleep(time.Duration(sc.StartLagMax+1) * time.Second)
+	sched.Sleep(time.Duration(sc.StartLagMax+1) * time.Second)
 	if err := w.CL.Step(now()); err != nil {
 		e.Undecided("%v", err)
 		return
@@ -285,7 +286,7 @@ func runBubble(tp *core.Tape, e *core.Env, sc *WScenario, which cyc.Which, res *
 				}
 			}
 		}
-		time.Sleep(next.Sub(t))
+		sched.Sleep(next.Sub(t))
 		_ = lastChange
 	}
 }
